@@ -59,7 +59,63 @@ def _native(model, obname):
             "how": "catalogue compiled by the working-tree compiler; the generated C of each function inspected"}
 
 
+DIVNODE = z3.Function("isinstance_DivNode", z3.IntSort(), z3.BoolSort())       # the front end's predicate for isinstance(x, ...DivNode)
+
+
+def _post_flag(e):
+    """constant <op> x with a division-like operator: the helper is told to CHECK for a zero divisor, unless the node says cdivision"""
+    zdc = e.vars.get("zerodivision_check")
+    if zdc is None:
+        return z3.BoolVal(False)
+    return zdc.b == (e.h0.fld("cdivision", e.node) == 0)
+
+
+def _flag_units():
+    from dv.pyfe import Callee as C
+    us = []
+    for op in ("Remainder", "TrueDivide", "FloorDivide"):
+        u = PyUnit("Optimize.optimise_numeric_binop[zero-division flag, %s, constant on the left]" % op, {"C02": None, "C06": None}, FILE, "optimise_numeric_binop",
+                   [("operator", "const:" + op), ("node", "ref:obj:Node"), ("arg_order", "const:CObj"), ("is_float", "bool"), ("extra_args", "ref:list")],
+                   requires=[("a division-like operator comes from a DivNode (ModNode is a subclass of DivNode)", lambda e: DIVNODE(e.node)),
+                             ("the extra arguments form a list", lambda e: e.h0.len(e.extra_args) >= 0)],
+                   ensures=[("`c %s x`: the zero-division check is requested exactly when the node does not ask for C division" % {"Remainder": "%", "TrueDivide": "/", "FloorDivide": "//"}[op],
+                             _post_flag)],
+                   callees={"ExprNodes.BoolNode": C("ExprNodes.BoolNode", ["pos", "value"], result_kind="ref:obj:Node")},
+                   native=_native_flag, search=lambda seed, ob: _native_flag({}, ob),
+                   options={"fields": FIELDS, "merge": False, "modules": {"PyrexTypes": "obj:Type", "ExprNodes": "obj:Class"}, "dynamic_classes": ("obj:Node",),
+                            "fragment": {"start": r"^if is_float or operator not in \('Eq', 'Ne'\):", "end": r"^if is_float or operator not in \('Eq', 'Ne'\):"}},
+                   subject={"fragment": "the statement computing `zerodivision_check` and appending it to the helper's extra arguments"})
+        us.append(u)
+    return us
+
+
+def _native_flag(model, obname):
+    import os
+    import subprocess
+    from dv import cextract
+    src = "# cython: language_level=3\ndef mod_c_x(x): return 2.5 % x\ndef div_c_x(x): return 2.5 / x\n"
+    try:
+        ctext, cfile = cextract.compile_pyx(src, name="dvzeroflag")
+    except Exception as ex:
+        return {"confirmed": False, "note": "compile failed: %r" % ex}
+    d = os.path.dirname(cfile)
+    p = subprocess.run(["clang", "-shared", "-fPIC", "-O0", "-w", "-I" + cextract.PY_INCLUDE, cfile, "-o", os.path.join(d, "dvzeroflag.so")], capture_output=True, text=True)
+    if p.returncode != 0:
+        return {"confirmed": False, "note": "build failed " + p.stderr[-300:]}
+    code = ("import sys; sys.path.insert(0, %r); import dvzeroflag as m\nbad = []\n"
+            "for f in (m.mod_c_x, m.div_c_x):\n    for z in (0, 0.0, -0.0):\n"
+            "        try: bad.append((f.__name__, z, f(z)))\n        except ZeroDivisionError: pass\nprint(bad)\n" % d)
+    r = subprocess.run(["/venv/bin/python", "-c", code], capture_output=True, text=True, timeout=120)
+    out = r.stdout.strip()
+    return {"inputs": "2.5 % x and 2.5 / x for x = 0, 0.0, -0.0", "actual": (out or r.stderr[-300:])[:400], "expected": "ZeroDivisionError", "confirmed": out != "[]",
+            "obligation": obname, "how": "module compiled by the working-tree compiler; called natively"}
+
+
 def units(tier):
+    return _gate_units(tier) + _flag_units()
+
+
+def _gate_units(tier):
     u = PyUnit("Optimize.optimise_numeric_binop[gate]", {"C02": None, "C19": None, "C06": None}, FILE, "optimise_numeric_binop",
                [("operator", "any"), ("node", "ref:obj:Node"), ("ret_type", "ref:obj:Type"), ("arg0", "ref:obj:Node"), ("arg1", "ref:obj:Node")],
                requires=[],
